@@ -119,13 +119,13 @@ theorem C08_quantile_sign (α : K) (hα0 : 0 < α) (hα1 : α < 1) (d : List (Ob
 /-- `"median"` is `"quantile"` at level 1/2, whatever level is passed along with `"median"` -/
 theorem C08_median_alias (β y z : K) :
     identFn (some .median) β y z = identFn (some .quantile) (1 / 2) y z := by
-  rw [identFn_median, identFn_quantile _ y z half_pos' half_lt_one']
+  rw [identFn_median, identFn_quantile _ y z ident_half_pos' half_lt_one']
 
 /-- `"expectile"` at level 1/2 is `"mean"` -/
 theorem C08_expectile_half_is_mean (β y z : K) :
     identFn (some .expectile) (1 / 2) y z = identFn (some .mean) β y z := by
-  rw [identFn_mean, identFn_expectile _ y z half_pos' half_lt_one',
-    absK_geInd _ half_pos' half_lt_one']
+  rw [identFn_mean, identFn_expectile _ y z ident_half_pos' half_lt_one',
+    absK_geInd _ ident_half_pos' half_lt_one']
   congr 1
   split <;> ring
 
